@@ -163,6 +163,7 @@ type debugObs struct {
 	Cat, Key, Sub string
 	Peer          int
 	Tomb          bool
+	Node          string // broadcast_address:http_port of the entry's PeerInfo
 }
 
 const unknownPeer = 999999
@@ -251,6 +252,8 @@ func (h *httpc) debug(pm peerMap) []debugObs {
 	var d map[string][]struct {
 		ID         string `json:"id"`
 		Tombstoned bool   `json:"tombstoned"`
+		Baddr      string `json:"broadcast_address"`
+		HTTPPort   int    `json:"http_port"`
 	}
 	if st != 200 || json.Unmarshal(b, &d) != nil {
 		lib.Fatalf("/debug: status %d body %q", st, b)
@@ -262,7 +265,8 @@ func (h *httpc) debug(pm peerMap) []debugObs {
 			lib.Fatalf("/debug: key %q", key)
 		}
 		for _, p := range ps {
-			out = append(out, debugObs{Cat: parts[0], Key: parts[1], Sub: parts[2], Peer: pm.get(p.ID), Tomb: p.Tombstoned})
+			out = append(out, debugObs{Cat: parts[0], Key: parts[1], Sub: parts[2], Peer: pm.get(p.ID), Tomb: p.Tombstoned,
+				Node: fmt.Sprintf("%s:%d", p.Baddr, p.HTTPPort)})
 		}
 	}
 	sort.Slice(out, func(i, j int) bool {
@@ -338,6 +342,21 @@ func (n *namer) coqDebug(d []debugObs) string {
 	parts := make([]string, len(d))
 	for i, e := range d {
 		parts[i] = fmt.Sprintf("(%s, %s, %s, %d, %s)", coqCat(e.Cat), n.name(e.Key), n.name(e.Sub), e.Peer, lib.CoqBool(e.Tomb))
+	}
+	return lib.CoqList(parts)
+}
+
+// coqNodes: the distinct (connection, broadcast_address:http_port) pairs of the entries.
+func (n *namer) coqNodes(d []debugObs) string {
+	seen := map[string]bool{}
+	var parts []string
+	for _, e := range d {
+		k := fmt.Sprintf("%d/%s", e.Peer, e.Node)
+		if seen[k] {
+			continue
+		}
+		seen[k] = true
+		parts = append(parts, fmt.Sprintf("(%d, %s)", e.Peer, n.name(e.Node)))
 	}
 	return lib.CoqList(parts)
 }
